@@ -10,6 +10,7 @@
   (`c14_default_alias_witness`), so `c14_instances_partial` is about assignments, not in-place mutation of shared defaults.
 -/
 import CstructModel.Heap
+import CstructModel.Gen.CsWrites
 import Proofs.C15
 
 namespace Cstruct.C14
@@ -34,6 +35,7 @@ theorem lookup_update_ne {α} (k j : Nat) (v : α) (l : List (Nat × α)) (h : k
 /-- the cstruct object an operation acts on, if any -/
 def opCs : Op → Option Nat
   | .setEndian i _ => some i | .addType i _ _ => some i | .addConst i _ _ => some i | .nextAnonymous i => some i
+  | .setPointer i _ => some i | .addLookup i _ _ => some i
   | _ => none
 
 /-- **Frame for cstruct objects**: loading definitions, changing endianness or adding types/constants on one cstruct object
@@ -90,6 +92,12 @@ theorem c14_default_alias_witness :
 theorem c14_memo {K V} [DecidableEq K] (f : K → V) (m : List (K × V)) (hm : ∀ p ∈ m, p.2 = f p.1) (k : K) :
     (Cstruct.Sched.memoGet f m k).1 = f k ∧ ∀ p ∈ (Cstruct.Sched.memoGet f m k).2, p.2 = f p.1 :=
   Cstruct.C15.c14_memo_transparent f m hm k
+
+/-- **The operations on a cstruct object are all there are**: every attribute of a cstruct object that the library's own
+    code writes (extracted from cstruct.py, parser.py and the type modules on every run, `Gen/CsWrites.lean`) is one of the
+    attributes the model carries (`Heap.csAttrs`), each of which is written by exactly one `Op`. A change that keeps new
+    state on the cstruct object (a parser, a cache, a mode flag) makes this fail to build. -/
+theorem c14_cs_alphabet : ∀ w ∈ Gen.csWrites, w.2.2 ∈ Heap.csAttrs := by decide
 
 theorem c14_footprint : ∀ w ∈ Gen.sharedWrites, w = ("Expression.evaluate", "store self.tokens.[]") :=
   Cstruct.C15.c15_footprint
